@@ -89,23 +89,17 @@ pub fn debug_hash(arena: &Arena<Payload>) -> u128 {
     h.finish()
 }
 
-/// The canonical key: derived `Debug` of the arena (every private field), the public
-/// observations α, the ids ever issued per slot, and the allocation counter.
-pub fn state_key(
-    arena: &Arena<Payload>,
-    obs: &[SlotObs],
-    issued_digest: u64,
-    allocs: usize,
-) -> u128 {
-    let mut h = HashSink::new();
-    write!(h, "{:?}", arena).unwrap();
-    h.bytes(&[0xff]);
+/// The canonical key: derived `Debug` of the arena (every private field; passed in as its
+/// hash `dbg`), the public observations α, the ids ever issued per slot, the allocation counter.
+pub fn state_key(dbg: u128, obs: &[SlotObs], issued_digest: u64, allocs: usize) -> u128 {
     let mut x = std::collections::hash_map::DefaultHasher::new();
     obs.hash(&mut x);
     issued_digest.hash(&mut x);
     allocs.hash(&mut x);
-    h.bytes(&x.finish().to_le_bytes());
-    h.finish()
+    let extra = x.finish();
+    let hi = hash64(&(dbg, extra, 0x51u8));
+    let lo = hash64(&(extra, dbg, 0xa7u8));
+    ((hi as u128) << 64) | lo as u128
 }
 
 pub fn hash64<T: Hash>(t: &T) -> u64 {
